@@ -35,6 +35,8 @@ def _mval(model, name):
     v = model.get(name)
     if isinstance(v, dict):
         return v.get("str") if v.get("str") is not None else v.get("int")
+    if isinstance(v, str) and v.startswith("If("):
+        return None  # variable the counter-example does not constrain
     return v
 
 
@@ -465,4 +467,226 @@ class C02(Property):
         return [{"check": "C02", "input": {"vector": x}} for x in vs], "%d random v4 vectors" % len(vs)
 
 
-PROPERTIES = {p.id: p() for p in [C01, C02, C03, C04, C05, C07, C08, C09, C10, C11, C12, C15, C18, C19]}
+def lemma_jobs(modname, fname, cases, limit=UNIT_LIMIT):
+    return [("lemma", modname, fname, dict(c), limit) for c in cases]
+
+
+ALL_SCORING = [("contracts.cvss3", V3_SCORING), ("contracts.cvss2", V2_SCORING), ("contracts.cvss4", V4_SCORING)]
+
+
+def scoring_jobs():
+    out = []
+    for modname, keys in ALL_SCORING:
+        out += contract_jobs(modname, keys)
+    return out
+
+
+def parse_case(unit):
+    if "[" not in unit:
+        return {}
+    body = unit[unit.index("[") + 1: unit.rindex("]")]
+    return dict(kv.split("=", 1) for kv in body.split(","))
+
+
+def eff_vectors(ver, model, fixed):
+    """vector(s) realising an effective assignment read from a lemma counter-model"""
+    from spec import v4 as S4
+
+    def val(m):
+        if m in fixed:
+            return fixed[m]
+        v = _mval(model, "e.%s" % m)
+        if v is None:
+            # unconstrained by the counter-example: any value of the domain will do
+            import lemmas.views as LV
+
+            dom = {"4": LV.EFF4, "3": LV.EFF3, "2": LV.EFF2}[ver]
+            if m in dom:
+                return dom[m][0]
+        return v
+
+    if ver == "4":
+        fs = []
+        extra = []
+        for m in S4.BASE:
+            v = val(m)
+            if v is None:
+                return None
+            if m in ("SI", "SA") and v == "S":
+                fs.append("%s:H" % m)
+                extra.append("M%s:S" % m)
+            else:
+                fs.append("%s:%s" % (m, v))
+        for m in ("E", "CR", "IR", "AR"):
+            if val(m) is None:
+                return None
+        return "CVSS:4.0/" + "/".join(fs + ["E:%s" % val("E"), "CR:%s" % val("CR"), "IR:%s" % val("IR"), "AR:%s" % val("AR")] + extra)
+    if ver == "3":
+        minor = fixed.get("minor", _mval(model, "e.minor"))
+        if minor not in (0, 1):
+            minor = 1
+        fs = []
+        for m in S3.ORDER:
+            v = val(m)
+            if v is None:
+                return None
+            fs.append("%s:%s" % (m, v))
+        return "CVSS:3.%d/%s" % (minor, "/".join(fs))
+    fs = []
+    for m in S2.ORDER:
+        v = val(m)
+        if v is None:
+            return None
+        fs.append("%s:%s" % (m, v))
+    return "/".join(fs)
+
+
+class C14(Property):
+    id = "C14"
+    trusted = ("A0", "A2", "A3", "A7", "FD")
+    technique = "code contracts (every score equals the specification function) + monotonicity lemmas on those functions decided by exhaustive finite-domain evaluation per metric step"
+
+    def jobs(self, tier):
+        import lemmas.mono as M
+
+        return (lemma_jobs("lemmas.mono", "mono_v4", M.CASES4) + lemma_jobs("lemmas.mono", "mono_v3", M.CASES3)
+                + lemma_jobs("lemmas.mono", "mono_v2", M.CASES2) + scoring_jobs())
+
+    def concretize(self, o):
+        unit = o.get("unit", "")
+        model = o.get("model") or {}
+        if unit.startswith("lemma:mono_"):
+            ver = unit[len("lemma:mono_v")]
+            c = parse_case(unit)
+            name = o.get("name", "")
+            fixed_lo, fixed_hi = {c["metric"]: c["lo"]}, {c["metric"]: c["hi"]}
+            which = None
+            if ver == "3":
+                if "env3.0" in name:
+                    fixed_lo["minor"] = fixed_hi["minor"] = 0
+                    which = [2]
+                elif "env3.1" in name:
+                    fixed_lo["minor"] = fixed_hi["minor"] = 1
+                    which = [2]
+                elif "temporal" in name:
+                    which = [1]
+                else:
+                    which = [0]
+                if "undefined" in name:
+                    fixed_lo["M" + c["metric"]] = c["lo"]
+                    fixed_hi["M" + c["metric"]] = c["hi"]
+            if ver == "2":
+                which = [1] if "temporal" in name else [0]
+            lo, hi = eff_vectors(ver, model, fixed_lo), eff_vectors(ver, model, fixed_hi)
+            if lo and hi:
+                return [{"check": "C14", "input": {"version": ver, "lo": lo, "hi": hi, "which": which}}]
+            return []
+        # a scoring obligation failed: replay under the matching scoring property's oracle
+        for ver, f, chk in (("3", v3_vector_from_model, "C01"), ("2", v2_vector_from_model, "C03"), ("4", v4_vector_from_model, "C02")):
+            if unit.startswith("cvss" + ver):
+                v = f(model)
+                return [{"check": chk, "input": {"vector": v}}] if v else []
+        return []
+
+    def widen(self, o, tier):
+        rng = random.Random(2)
+        return self.bounded(tier, 2)[0][:20000]
+
+    def bounded(self, tier, seed):
+        import lemmas.mono as M
+
+        rng = random.Random(seed)
+        n = 20000 if tier == "quick" else 300000
+        jobs = []
+        for _ in range(n):
+            ver = rng.choice("234")
+            order = {"2": M.ORDER2, "3": M.ORDER3, "4": M.ORDER4}[ver]
+            m = rng.choice(sorted(order))
+            i = rng.randrange(len(order[m]) - 1)
+            lo_v, hi_v = order[m][i], order[m][i + 1]
+            if ver == "4":
+                base = v4_random(rng, 1, p=0.0)[0].split("/")
+                d = dict(f.split(":") for f in base[1:])
+                for k in ("E", "CR", "IR", "AR"):
+                    d[k] = rng.choice([x for x in __import__("spec.v4", fromlist=["x"]).VALUES[k] if x != "X"])
+
+                def mk(val):
+                    dd = dict(d)
+                    if m in ("SI", "SA") and val == "S":
+                        dd["M" + m] = "S"
+                    else:
+                        dd[m] = val
+                    return "CVSS:4.0/" + "/".join("%s:%s" % kv for kv in dd.items())
+
+                jobs.append({"check": "C14", "input": {"version": "4", "lo": mk(lo_v), "hi": mk(hi_v)}})
+            elif ver == "3":
+                minor = rng.choice((0, 1))
+                d = {k: rng.choice([x for x in S3.VALUES[k] if x != "X"]) for k in S3.ORDER}
+                which = [0, 1] + ([2] if not (minor == 0 and m in M.EXEMPT30) else [])
+                if m in S3.BASE:
+                    d.pop("M" + m, None)
+
+                def mk3(val):
+                    dd = dict(d)
+                    dd[m] = val
+                    return "CVSS:3.%d/" % minor + "/".join("%s:%s" % kv for kv in dd.items())
+
+                jobs.append({"check": "C14", "input": {"version": "3", "lo": mk3(lo_v), "hi": mk3(hi_v), "which": which}})
+            else:
+                d = {k: rng.choice([x for x in S2.VALUES[k] if x != "ND"]) for k in S2.BASE + S2.TEMPORAL}
+
+                def mk2(val):
+                    dd = dict(d)
+                    dd[m] = val
+                    return "/".join("%s:%s" % kv for kv in dd.items())
+
+                jobs.append({"check": "C14", "input": {"version": "2", "lo": mk2(lo_v), "hi": mk2(hi_v), "which": [0, 1]}})
+        return jobs, "%d random one-step pairs over v2, v3, v4" % n
+
+
+class C06(VectorProperty):
+    id = "C06"
+    native = "C06"
+    trusted = ("A0", "A2", "A3", "A7", "FD")
+    technique = "code contracts (scores equal Spec(Eff(O))) + non-interference lemmas on Eff and on the support of the specification functions"
+    contracts = []
+
+    def jobs(self, tier):
+        return (lemma_jobs("lemmas.ni", "ni_v3", [{}]) + lemma_jobs("lemmas.ni", "ni_v2", [{}])
+                + lemma_jobs("lemmas.ni", "ni_v4", [{}]) + scoring_jobs())
+
+    def vectors_of(self, o):
+        unit = o.get("unit", "")
+        model = o.get("model") or {}
+        out = VectorProperty.vectors_of(self, o)
+        if unit.startswith("cvss4") or unit.startswith("lemma:ni_v4"):
+            v = v4_vector_from_model(model)
+            if v:
+                out.append(("4", v))
+        if unit.startswith("lemma:ni_v3"):
+            v = v3_vector_from_model(model)
+            if v:
+                out.append(("3", v))
+        if unit.startswith("lemma:ni_v2"):
+            v = v2_vector_from_model(model)
+            if v:
+                out.append(("2", v))
+        return out
+
+    def widen(self, o, tier):
+        rng = random.Random(1)
+        out = VectorProperty.widen(self, o, tier)
+        unit = o.get("unit", "")
+        if "4" in unit.split("[")[0]:
+            out += [self.job("4", x) for x in v4_random(rng, 2500)]
+        return out
+
+    def bounded(self, tier, seed):
+        rng = random.Random(seed)
+        n = 1500 if tier == "quick" else 30000
+        jobs = [self.job("3", x) for x in v3_random(rng, n)] + [self.job("2", x) for x in v2_random(rng, n)]
+        jobs += [self.job("4", x) for x in v4_random(rng, n)]
+        return jobs, "%d random vectors per version" % n
+
+
+PROPERTIES = {p.id: p() for p in [C01, C02, C03, C04, C05, C06, C07, C08, C09, C10, C11, C12, C14, C15, C18, C19]}
